@@ -3,5 +3,5 @@ CONSTANTS
   LegacyPlan = TRUE
   CfgSet <- AllCfgs
 VIEW NoSched
-INVARIANTS InBounds Disjoint Tiling RowOrder EachOnce HeldDistinct
+INVARIANTS InBounds Disjoint Tiling RowOrder EachOnce HeldDistinct CoveredIffTotal
 CHECK_DEADLOCK FALSE
